@@ -126,6 +126,33 @@ def stepRt (c : Case) : String × String :=
     (model, verdict)
   | _ => ("bad-op", "-")
 
+/-- `sw <dir> <thr> <secret> <payloads1> <deflated1> <payloads2> <deflated2>`: `payloads1` in the clear, then both
+    sides enable encryption, then `payloads2`.  Output as for `rt`. -/
+def stepSw (c : Case) : String × String :=
+  match c.args with
+  | [dir, thrS, sec, ps1S, ds1S, ps2S, ds2S] =>
+    let thr := thrS.toInt?.getD (-1)
+    let cfg : Cfg := ⟨thr, dir = "s"⟩
+    let ps1 := (splitList ps1S).map parsePayload
+    let ps2 := (splitList ps2S).map parsePayload
+    let pairs := (ps1 ++ ps2).zip (((splitList ds1S) ++ (splitList ds2S)).map fastHex)
+    let D := fun p => match pairs.find? (fun q => q.1 == p) with | some (_, d) => d | none => []
+    let Z := mkZ (pairs.map fun (p, d) => (d, some p))
+    let k := fastHex sec
+    let E := aesE k
+    let wire := encodeAll thr D ps1 ++ cfb8Enc E k (encodeAll thr D ps2)
+    let (got, e) := decodeSwitch cfg Z E k ps1.length (ps2.length + 2) wire
+    let model := "wire=" ++ showPayload wire ++ " read=" ++ showList got ++ " end=" ++ endClass e
+    let fits := (ps1 ++ ps2).all fun p => !p.isEmpty &&
+      (decide ((encodeFrame thr D p).length ≤ maxFrame) && decide (p.length ≤ cfg.cap))
+    let want := showList (ps1 ++ ps2) ++ " end=eof"
+    let verdict :=
+      if !fits then "-"
+      else if (c.impl.splitOn " read=").getLast? == some want then "ok"
+      else "viol:payloads-not-read-back-after-encryption-switch"
+    (model, verdict)
+  | _ => ("bad-op", "-")
+
 /-- `dec <dir> <thr> <streamhex> <oracle>` where oracle = `body=ok:out;body=err;…` or `_`:
     model output `read=<list> end=<class>`; spec = Velocity reference on the implementation's output. -/
 def stepDec (c : Case) : String × String :=
@@ -157,6 +184,7 @@ def stepDec (c : Case) : String × String :=
 def step (c : Case) : String × String :=
   match c.op with
   | "rt" => stepRt c
+  | "sw" => stepSw c
   | "dec" => stepDec c
   | _ => ("bad-op", "-")
 
